@@ -25,8 +25,8 @@ Definition full_handshake (c2 : Client) (s2 : Server) : res Resumed :=
 
 (* sc / ss: the session as stored by the client / by the server (cache entry or ticket contents) *)
 (* by_ticket: the session reaches the server inside an RFC 5077 ticket rather than through its session cache.
-   Since /repo 19b1cb2 the ticket carries the SRP user name as well, so the two mechanisms no longer differ in
-   anything modelled here; the parameter is kept so that histories still say which mechanism was used. *)
+   Since /repo 19b1cb2 the ticket carries the SRP user name as well; the one remaining difference modelled here is
+   that a ticket needs ClientHello extensions, which an SSLv3-only client does not send. *)
 Definition resume_legacy (by_ticket : bool) (c2 : Client) (s2 : Server) (sc ss : View) : res Resumed :=
   ch <- client_offer c2 ;;
   (* the client refuses (ValueError) to offer a session whose suite it no longer enables or whose
@@ -40,6 +40,9 @@ Definition resume_legacy (by_ticket : bool) (c2 : Client) (s2 : Server) (sc ss :
   _ <- (if (v <? st_maxV st) && ch_fallback ch then server_alert a_inappropriate_fallback else Ok tt) ;;
   _ <- (match ch_rsl ch with Some r => if r <? 64 then server_alert a_illegal_parameter else Ok tt
                            | None => Ok tt end) ;;
+  (* an SSLv3-only client sends no extensions: it neither asked for a ticket nor can offer one, and a server that
+     resumes by ticket only (no session cache) does a full handshake *)
+  if by_ticket && (st_maxV (cl_set c2) =? 0) then full_handshake c2 s2 else
   if 3 <? v then full_handshake c2 s2                  (* TLS 1.3 selected: the old session is not used *)
   else if negb (memZ (vw_suite ss) (server_suites s2 ch v)) then full_handshake c2 s2
   else if negb (memZ (vw_suite ss) (ch_suites ch)) then server_alert a_illegal_parameter
